@@ -2394,7 +2394,10 @@ impl SctpInner {
             if !stream_ssn_pairs.is_empty() {
                 let mut streams = self.inbound_streams.lock();
                 for (sid, ssn) in &stream_ssn_pairs {
-                    if let Some(stream) = streams.get_mut(sid) {
+                    // A stream whose very first message was abandoned has no entry yet;
+                    // without one it would wait for SSN 0 forever.
+                    {
+                        let stream = streams.entry(*sid).or_insert_with(InboundStream::new);
                         stream.advance_ssn_to(*ssn);
                         // Deliver any messages that are now ready
                         let ready = stream.drain_ready();
